@@ -35,7 +35,7 @@ def _flat_index_var(f, groups):
                     return s.target.id
         if isinstance(n, ast.Assign) and isinstance(n.targets[0], ast.Name) and isinstance(n.value, ast.ListComp) and len(n.value.generators) == 2:
             g0, g1 = n.value.generators
-            if isinstance(g0.iter, ast.Name) and g0.iter.id == groups and norm_src(g1.iter) == norm_src(g0.target) \
+            if isinstance(g0.iter, ast.Name) and g0.iter.id == groups and norm_src(g1.iter) in (norm_src(g0.target), f"list({norm_src(g0.target)})", f"tuple({norm_src(g0.target)})") \
                     and norm_src(n.value.elt) == norm_src(g1.target) and not g0.ifs and not g1.ifs:
                 return n.targets[0].id
     return None
@@ -50,7 +50,8 @@ class _Quant:
         L, n = self.L, self.n
         table = {f"len({L})": "LEN", f"len(set({L}))": "SETLEN", n: "N", f"min({L})": "MIN", f"max({L})": "MAX", f"set({L})": "SET",
                  f"set(range({n}))": "RANGESET", f"set(range(0, {n}))": "RANGESET", "0": "ZERO", f"{n} - 1": "N-1", f"sorted({L})": "SORTED",
-                 f"list(range({n}))": "RANGELIST", f"len(np.unique({L}))": "SETLEN", "-1": "MINUS1"}
+                 f"list(range({n}))": "RANGELIST", f"len(np.unique({L}))": "SETLEN", "-1": "MINUS1",
+                 f"min(set({L}))": "MIN", f"max(set({L}))": "MAX", f"min(sorted({L}))": "MIN", f"max(sorted({L}))": "MAX"}
         return table.get(s)
 
 
@@ -190,6 +191,11 @@ def check_groups_completion(pm, ctx, rid):
     if rhs is None:
         ctx.unrecognised(rid, site, "the completion is not `groups + [...]`")
         return
+    if isinstance(rhs, ast.Name):
+        # a temporary bound once to the completion list
+        ds_ = [s_ for s_ in ast.walk(f) if isinstance(s_, ast.Assign) and len(s_.targets) == 1 and isinstance(s_.targets[0], ast.Name) and s_.targets[0].id == rhs.id]
+        if len(ds_) == 1:
+            rhs = ds_[0].value
     if isinstance(rhs, ast.ListComp):
         c = rhs
         g = c.generators[0]
